@@ -9,27 +9,52 @@ pub fn level(prop: &str) -> &'static str {
     }
 }
 
+fn family(prop: &str) -> &'static str {
+    crate::driver::family_of(prop)
+}
+
 pub fn describe(prop: &str) -> (&'static str, String, Value) {
-    let components = json!({
-        "real_code": ["shred builder / stage packing / dispatcher / batch / async dispatcher / world (unmodified working tree, compiled through the shadow manifest)", "atomic_refcell", "ahash (keys supplied by the simulator through set_random_source)", "arrayvec", "smallvec"],
-        "stubbed": ["rayon -> simrayon (worker-slot model on detsim; see DESIGN.md 2.2)"],
-        "simulator": ["detsim scheduler: OS threads + baton, seeded strategies, choice trace"],
-    });
-    let rule = match prop {
-        "C01" | "C02" | "C03" | "C04" | "C07" | "C12" | "C13" => "evaluations = simulated executions (one strategy run of one generated scenario's call sequence). distinct_nontrivial = number of distinct (executed layout digest, interleaving digest of the (event kind, system) order) pairs among runs in which at least two systems of one dispatch were inside their windows at the same time.".to_string(),
-        _ => "evaluations = simulated executions; distinct_nontrivial = distinct (layout, interleaving) digests with real overlap or an injected fault".to_string(),
+    let fam = family(prop);
+    let components = match fam {
+        "W8" | "W9" | "Z" => json!({
+            "real_code": ["shred World / Fetch / FetchMut / Read / Write / Option forms / Entry / MetaTable / MetaIter(Mut) / tuple and derive expansions of SystemData (unmodified working tree, compiled through the shadow manifest)", "atomic_refcell (the borrow flags)", "ahash"],
+            "stubbed": [],
+            "simulator": if fam == "W8" { json!(["detsim scheduler: 1-4 client tasks as OS threads + baton, seeded strategies, choice trace", "reference borrow-state model + reference registration list", "thorough tier: Miri's seeded scheduler on real threads"]) } else if fam == "W9" { json!(["seeded history generator with injected callback panics", "reference typed map + drop counters", "thorough tier: the same histories under Miri"]) } else { json!(["enumeration of (type, failing member) crash points + seeded multi-failure subsets", "independent Describe oracle"]) },
+            "not_involved": ["dispatcher, rayon"],
+        }),
+        _ => json!({
+            "real_code": ["shred builder / stage packing / dispatcher / batch / async dispatcher / par_seq / world (unmodified working tree, compiled through the shadow manifest for engine S, directly for engine R and the no-parallel build)", "atomic_refcell", "ahash (keys supplied by the simulator through its random-source seam)", "arrayvec", "smallvec", "std::sync::mpsc (async dispatcher: real channel, reached through the detach protocol)", "engine R phase: the real rayon pool"],
+            "stubbed": ["engine S: rayon -> simrayon (worker-slot model on detsim; DESIGN.md 2.2)"],
+            "simulator": ["detsim scheduler: OS threads + baton, seeded strategies (random, low-switch, PCT, round-robin, max-overlap, hold), choice trace, shrinking", "engine R: detsim::ext - real threads parked at scheduler points, controller decides at /proc-observed quiescence"],
+        }),
+    };
+    let rule = match fam {
+        "Z" => "evaluations = fetch / setup / declared-list cases executed. The enumerated space is complete: for each of the 281 types every distinct resource of a member is made absent in turn, plus all-present, plus setup on the empty, the full and a half-filled world; beyond that seeded subsets of absent / present resources. distinct_nontrivial = distinct (type, case) pairs of the enumeration plus distinct sampled cases.".to_string(),
+        "W9" => "evaluations = operation histories executed against the reference typed map (4-44 operations over up to 6 types x 4 dynamic ids). distinct_nontrivial = distinct histories containing at least one call with a mismatching type argument or an injected callback panic (Default, or_insert_with closure, Drop).".to_string(),
+        "W8" => "evaluations = simulated executions of a generated multi-client scenario under one seeded schedule. distinct_nontrivial = distinct (scenario, operation interleaving) digests among executions in which a borrow was refused or a task unwound through its guards.".to_string(),
+        "C" => "evaluations = builds of generated registration sequences (the original plus every transformed variant / every formatting). distinct_nontrivial = distinct registration sequences with at least two systems.".to_string(),
+        "P" => "evaluations = simulated executions of a run-time assembled Par/Seq tree (or construction attempts that the debug check must reject). distinct_nontrivial = distinct (tree, interleaving) digests with two leaves inside their windows at once, plus distinct rejected trees.".to_string(),
+        _ => "evaluations = simulated executions (one strategy run of one generated scenario's call sequence; engine S plus the engine R phase where the property has one). distinct_nontrivial = distinct (executed layout digest, interleaving digest of the (event kind, system) order) pairs among runs in which at least two systems of one dispatch were inside their windows at the same time, a fault was delivered, or a caller operation had to block on a job in flight.".to_string(),
     };
     (level(prop), rule, components)
 }
 
 pub fn assumptions(prop: &str) -> Vec<String> {
-    let mut v = vec![
-        "the stand-in pool over-approximates rayon's system-level interleavings for the same worker count (DESIGN.md 2.2)".to_string(),
-        "harness systems only touch what they declare unless an Undeclared fault is injected".to_string(),
-        "seeded sampling: a clean batch is evidence, not proof".to_string(),
-    ];
+    let fam = family(prop);
+    let mut v = vec!["seeded sampling: a clean batch is evidence, not proof".to_string()];
+    if !matches!(fam, "W8" | "W9" | "Z") {
+        v.push("engine S: the stand-in pool over-approximates rayon's system-level interleavings for the same worker count (DESIGN.md 2.2); liveness is only asserted with at least as many workers as required jobs".to_string());
+        v.push("harness systems only touch what they declare".to_string());
+        v.push("engine R: quiescence is read from /proc/self/task/*/stat and schedstat; the process has no timers, so a quiescent state can only be left through a controller decision".to_string());
+    }
+    if fam == "W8" {
+        v.push("operations of client tasks are atomic with respect to the scheduler (one baton holder); instruction-level interleavings of the borrow counter are the Miri tier's business".to_string());
+    }
     if prop == "C12" {
         v.push("known finding KF1 (thread-local system inside a batch runs on a pool worker) is reported as KNOWN-FINDING, see known_findings.json".into());
+    }
+    if prop == "C11" {
+        v.push("known finding KF2 (batch nested two levels deep ignores the supplied pool) is reported as KNOWN-FINDING, see known_findings.json".into());
     }
     v
 }
